@@ -345,13 +345,17 @@ impl Property for C07 {
     type Case = Case;
     const ID: &'static str = "C07";
     fn cases(tier: Tier) -> u64 {
-        tier.pick(4_000, 400_000)
+        tier.pick(12_000, 400_000)
     }
     fn strategy(tier: Tier) -> BoxedStrategy<Case> {
         let max_ops = tier.pick(120usize, 200usize);
         (config_strategy(), focus_strategy())
             .prop_flat_map(move |(cfg, focus)| {
-                (Just(cfg), proptest::collection::vec(op_strategy(focus), 1..max_ops))
+                let frag = prop_oneof![
+                    12 => op_strategy(focus.clone()).prop_map(|o| vec![o]),
+                    1 => pending_scenario(focus),
+                ];
+                (Just(cfg), proptest::collection::vec(frag, 1..max_ops).prop_map(|v| v.into_iter().flatten().collect::<Vec<_>>()))
             })
             .prop_map(|(cfg, ops)| Case { cfg, ops })
             .boxed()
